@@ -17,6 +17,7 @@ import (
 	"crypto/ecdsa"
 	"fmt"
 	"math/big"
+	"os"
 	"runtime"
 	"sort"
 	"strings"
@@ -1307,7 +1308,7 @@ func run(c Sx) Result {
 	sort.Strings(tags)
 	obs := L(seq.obs(b.pre), parObs, L(mobs...))
 	return Result{Obs: obs, Oracle: strings.Join(oracle, "; "), Tags: tags,
-		NonTrivial: b.n >= 2 && rejected >= 20 && affectedN >= 1}
+		NonTrivial: b.n >= 2 && rejected >= 5 && rejected*3 >= 2*len(b.muts) && affectedN >= 1}
 }
 
 func gen(r *Rng, tier string, emit func(Sx)) {
@@ -1324,6 +1325,15 @@ func gen(r *Rng, tier string, emit func(Sx)) {
 		}
 		emit(b.caseSx(nm))
 	}
+	// C33_SEEDS=s1,s2,...: emit exactly these seeds (used to (re)build corpus/C33)
+	if env := os.Getenv("C33_SEEDS"); env != "" {
+		for _, f := range strings.Split(env, ",") {
+			var sd uint64
+			fmt.Sscan(f, &sd)
+			one(sd, 8)
+		}
+		return
+	}
 	// the hand-built dependency scenarios (seed = id + nScen*variant), then random blocks
 	for v := 0; v < nvar; v++ {
 		for id := 0; id < nScen; id++ {
@@ -1338,10 +1348,13 @@ func gen(r *Rng, tier string, emit func(Sx)) {
 func main() {
 	Main(Family{
 		ID: "c33",
-		Rule: "random Amsterdam blocks on a fixed genesis (5 senders, contracts with read-write storage conflicts, " +
-			"balance readers, create+selfdestruct factory, top-level creates, transfers to the coinbase and to fresh " +
-			"accounts, withdrawals), 0-9 txs; per block 32 mutated access lists (48 thorough); non-trivial: >= 2 txs, " +
-			">= 20 rejected mutations, >= 1 mutation that changes a view a transaction reads",
+		Rule: "Amsterdam blocks on a fixed genesis: 14 hand-built dependency scenarios through accounts that are not " +
+			"senders (nonce-only CREATE / CREATE2 factories, EIP-7702 authorities delegating / re-delegating / clearing, " +
+			"a balance-only contract that forwards from its balance, code deployed then called / hashed, storage-only " +
+			"chains, balance-only sinks, mixes, an empty block, a single tx) with random variants, and random blocks of " +
+			"2-9 txs over 17 transaction kinds (plus selfdestruct factory, creates, transfers to the coinbase / fresh " +
+			"accounts, withdrawals); per block 24-32 mutated access lists (48 thorough); non-trivial: >= 2 txs, >= 2/3 of " +
+			"the mutations rejected (>= 5), >= 1 mutation that changes a view a transaction reads",
 		Gen:         gen,
 		Run:         run,
 		CaseTimeout: 300 * time.Second,
